@@ -113,7 +113,7 @@ func genC11(out, tier string, rng *rand.Rand) {
 	})
 	for i, j := range jobs {
 		if j.mk.name == "file" {
-			sink.AddPreV("fs", "check_all_fs", results[i].c, results[i].text, results[i].js, len(j.names) >= 2)
+			sink.AddPreV("fs", "check_all_fs", "(list req * list resp)", results[i].c, results[i].text, results[i].js, len(j.names) >= 2)
 		} else {
 			sink.AddPre(results[i].c, results[i].text, results[i].js, len(j.names) >= 2)
 		}
